@@ -206,19 +206,21 @@ def job_clock(asc, ops, n1, n2):
     return recs
 
 
-def job_antenna(num_pols, asc, N):
+def job_antenna(num_pols, asc, N, ycomplex=False):
     recs = []
     P, pre = params()
     dt = 1 / P['sr'].t
     tsv = Sym(z3.Real('t_set'))
     for comp in compositions(N):
-        tag = f"C10:antenna:{(num_pols, asc)}:{comp}"
+        tag = f"C10:antenna:{(num_pols, asc, ycomplex)}:{comp}"
         with volt_patches(proxy=proxy()):
             ant = A.Antenna(sample_rate=P['sr'], fch1=P['fch1'], ascending=asc, num_pols=num_pols, t_start=P['t0'], seed=3)
             seeds = [31, 32][:num_pols]
             for st in ant.streams:
                 st.add_noise(P['v_mean'], P['v_std'])
                 st.add_constant_signal(P['f_start'], P['drift'], P['level'], P['phase'])
+            if num_pols == 2 and ycomplex:
+                ant.y.add_signal(custom_complex)        # complex source on one polarisation only
             chunks = []
             okshape = True
             for n in comp:
@@ -231,7 +233,7 @@ def job_antenna(num_pols, asc, N):
             ant.set_time(tsv)
             after_set = [ant.t_start] + [st.t_start for st in ant.streams] + [ant.start_obs] + [st.start_obs for st in ant.streams]
             v2 = ant.get_samples(1)
-        pl = dict(fn='antenna', num_pols=num_pols, asc=asc, comp=list(comp))
+        pl = dict(fn='antenna', num_pols=num_pols, asc=asc, comp=list(comp), ycomplex=ycomplex)
         if not okshape:
             recs.append(q(tag + ':shape', 'sat'))
             recs.append(cex('C10:antenna:shape', 'antenna output shape is not (1, num_pols, n)', pl, name=tag + ':shape'))
@@ -241,14 +243,14 @@ def job_antenna(num_pols, asc, N):
         for v in chunks:
             for j in range(v.shape[2]):
                 for pol in range(num_pols):
-                    pairs.append((cparts(v[0, pol, j]), spec_sample(P, asc, None, P['t0'].t + RV(k) * dt, k, seed=seeds[pol])))
+                    pairs.append((cparts(v[0, pol, j]), spec_sample(P, asc, 'complex' if (ycomplex and pol == 1) else None, P['t0'].t + RV(k) * dt, k, seed=seeds[pol])))
                 k += 1
         for c in clock:
             pairs.append(((lift(c), RV(0)), (P['t0'].t + RV(N) * dt, RV(0))))
         for c in after_set[:1 + num_pols]:
             pairs.append(((lift(c), RV(0)), (tsv.t, RV(0))))
         for pol in range(num_pols):
-            pairs.append((cparts(v2[0, pol, 0]), spec_sample(P, asc, None, tsv.t, N, seed=seeds[pol])))
+            pairs.append((cparts(v2[0, pol, 0]), spec_sample(P, asc, 'complex' if (ycomplex and pol == 1) else None, tsv.t, N, seed=seeds[pol])))
         decide(tag, pairs, recs, 'C10:antenna', 'antenna polarisations are not stacked x,y over one timeline / clock differs from its streams', pl, pre)
         flags_ok = (not started) and all(bool(f) for f in after_set[1 + num_pols:])
         r, _ = core.check([RV(int(flags_ok)) != 1])
@@ -330,12 +332,23 @@ def replay_antenna(p):
         for st in ant.streams:
             st.add_noise(0, 1)
             st.add_constant_signal(150.0, 20.0, 1.0)
+        if p.get('ycomplex') and p['num_pols'] == 2:
+            ant.y.add_signal(lambda ts: 0.5j * np.ones(len(ts)))
     N = sum(p['comp'])
     got = np.concatenate([a.get_samples(n) for n in p['comp']], axis=2)
     ref = b.get_samples(N)
     msgs = []
     if got.shape != (1, p['num_pols'], N) or not np.allclose(got, ref, rtol=1e-9, atol=1e-9):
         msgs.append("chunked antenna output differs from a single request")
+    if p.get('ycomplex') and p['num_pols'] == 2:
+        c = mk()
+        for st in c.streams:
+            st.add_noise(0, 1)
+            st.add_constant_signal(150.0, 20.0, 1.0)
+        c.y.add_signal(lambda ts: 0.5j * np.ones(len(ts)))
+        direct_y = np.array(c.y.get_samples(N))
+        if not np.allclose(got[0, 1], direct_y, rtol=1e-9, atol=1e-9):
+            msgs.append(f"stacked y polarisation differs from the y stream itself (max abs diff {np.max(np.abs(got[0, 1] - direct_y))}, dtype {got.dtype} vs {direct_y.dtype})")
     xs = np.array(mk().x.get_samples(N)) if False else None
     for st in a.streams:
         if abs(st.t_start - a.t_start) > 1e-9 or abs(a.t_start - (t0 + N / sr)) > 1e-9:
@@ -370,6 +383,7 @@ def main():
                 jobs.append(('job_clock', (asc, ops, n1, n2)))
         for num_pols in (1, 2):
             jobs.append(('job_antenna', (num_pols, asc, 3 if not ck.thorough else 4)))
+        jobs.append(('job_antenna', (2, asc, 2, True)))
     ck.run_jobs('props.C10', jobs, timeout_s=900)
     ck.finish()
 
